@@ -372,6 +372,9 @@ class Laws(object):
         self.memo = {}
         self.in_progress = set()
         self.stats = {'laws': 0, 'multi_case_laws': 0, 'no_law': 0, 'restarts': 0, 'laws_with_effects': 0}
+        self.stride = None
+        self.ledgered_unwind = 0
+        self.unwind_reports = {}
 
     def may_touch_elements(self, name):
         if name is None:
@@ -380,6 +383,82 @@ class Laws(object):
             # an undefined external that is not an element primitive (allocator, iterator, ...)
             return False
         return bool(self.orc.effects.get(name, frozenset()) & set(ELEM_EFFECTS)) or name.startswith('llvm.mem')
+
+    def unwind_ledger(self, ex, f):
+        """R03.8 (reported under C03): on an exceptional exit of any function compiled from the header,
+        whatever was constructed in a block obtained on the path that is not a container's buffer
+        afterwards has been destroyed exactly - the destructions that follow tile the constructions in
+        that block.  (Elements a throwing helper built itself are that helper's business: its own walk.)"""
+        effs = ex['effects']
+        if effs is None or ex.get('approx') or self.stride is None:
+            return
+        s = self.stride
+        eqs = ex['eqs']
+        keep = set()
+        for obj, cs in ex['cells'].items():
+            if 0 in cs:
+                d = ex['val'](cs[0])
+                if d is not None and sym.is_lin(d):
+                    keep |= set(at for at, co in d[2])
+        blocks = {}
+        for i_, e in enumerate(effs):
+            if e[0] not in ('construct', 'destroy') or not sym.is_lin(e[2]):
+                continue
+            roots = [at for at, co in e[2][2] if at[0] in ('ret', 'newbuf')]
+            if len(roots) != 1 or roots[0] in keep:
+                continue
+            b_ = e[3] if e[3] is not None else lin_add(e[2], L(s))
+            if same(e[2], b_, eqs):
+                continue
+            blocks.setdefault(roots[0], {'construct': [], 'destroy': []})[e[0]].append([e[2], b_, False, i_])
+        bn = base_name(f.pretty)
+
+        def rd(t):
+            r = re.sub(r"'_Z[^']*'", "'fn'", repr(t))
+            return r[:160]
+        for root, bd in blocks.items():
+            if not bd['construct']:
+                continue
+            self.ledgered_unwind += 1
+            bad = None
+            # every destruction is tiled by constructions that precede it (one destroy_range may cover
+            # several constructed pieces), and no construction is left over
+            for d_ in bd['destroy']:
+                cur = d_[0]
+                steps = 0
+                while not same(cur, d_[1], eqs) and steps < 8:
+                    steps += 1
+                    nx = None
+                    for c_ in bd['construct']:
+                        if not c_[2] and c_[3] < d_[3] and same(c_[0], cur, eqs):
+                            nx = c_
+                            break
+                    if nx is None:
+                        bad = 'destroyed-not-constructed'
+                        break
+                    nx[2] = True
+                    cur = nx[1]
+                if bad:
+                    break
+            if bad is None and [c_ for c_ in bd['construct'] if not c_[2]]:
+                bad = 'constructed-not-destroyed'
+            dk = (f.name, bad)
+            if dk in self.unwind_reports:
+                continue
+            if bad is None:
+                self.unwind_reports[dk] = Report('R03.8', True, None, sample={'function': bn, 'config': self.cfg.name})
+            else:
+                what = ('elements constructed in a block obtained on the path are not all destroyed before the exception leaves'
+                        if bad == 'constructed-not-destroyed' else
+                        'the destructions in a block obtained on the path do not match what was constructed there (a range is '
+                        'destroyed that is not exactly made of constructed pieces)')
+                self.unwind_reports[dk] = Report(
+                    'R03.8', False, {'function': bn, 'defect': what},
+                    'R03.8: %s: on an exceptional exit %s (%s)' % (bn, what, self.cfg.name),
+                    {'function': f.pretty[:300], 'function_line': f.src_line, 'config': self.cfg.name,
+                     'file': 'source/include/gch/small_vector.hpp',
+                     'constructed': [[rd(x[0]), rd(x[1])] for x in bd['construct']][:4],
+                     'destroyed': [[rd(x[0]), rd(x[1])] for x in bd['destroy']][:4]})
 
     # -- inference --------------------------------------------------------------------------
     def law(self, name):
@@ -884,20 +963,21 @@ class LawRule(sym.Rule):
     def on_exit(self, rs, kind, st, f, eng, rv=None):
         retmap, choices, ops = rs
         if kind != 'ret':
-            if self.spec is not None and kind == 'unwind':
+            if kind != 'unwind':
+                return
+            if self.spec is not None:
                 self.spec.on_unwind(self, rs, st, f, eng)
-            return
         cells = {}
         for a, tag in eng.field_tag.items():
             if tag in (0, 1, 2):
                 cells.setdefault(obj_of(a), {})[tag] = a
         # loops are generalised once the whole function has been walked (finish): keep what is needed
         snap = State_snapshot(st, eng)
-        self.raw.append((retmap, choices, ops, cells, rv, path_eqs(st), st.conds, snap, facts(st)))
+        self.raw.append((retmap, choices, ops, cells, rv, path_eqs(st), st.conds, snap, facts(st), kind))
 
     def finish(self, f):
         eng = self.eng
-        for (retmap, choices, ops, cells, rv, peqs, conds0, snap, fs0) in self.raw:
+        for (retmap, choices, ops, cells, rv, peqs, conds0, snap, fs0, xkind) in self.raw:
             rv0 = self.resolve(rv, retmap)
             eqs0 = [self.resolve(q, retmap) for q in peqs]
             combos = [({}, [], [], {})]
@@ -969,7 +1049,9 @@ class LawRule(sym.Rule):
                 apx = bool(effs and effs.get('approx')) or any(op[0] == 'approx' for op in ops)
                 ex = {'cells': cells, 'val': val, 'rv': fix(rv0), 'eqs': eqs, 'conds': tuple(conds0) + xconds, 'via': via,
                       'effects': effects, 'facts': fs, 'approx': apx}
-                if self.spec is not None:
+                if xkind == 'unwind':
+                    self.laws.unwind_ledger(ex, f)
+                elif self.spec is not None:
                     self.spec.on_ret(self, ex, f, eng)
                 else:
                     self.exits.append(ex)
@@ -1116,6 +1198,7 @@ class Spec(object):
         self.undecided = 0
         self.undecided_ops = {}
         self.placed = 0
+        self.ledgered_unwind = 0
         self.directions = 0
         self.ledgered = 0
         self.unplaced = 0
@@ -1746,6 +1829,9 @@ class Spec(object):
             else:
                 self.rep('R01.3', False, 'at() raises on a path on which `size() <= i` is not established')
 
+    def on_unwind_exit(self, lr, ex, f, eng):
+        self.laws.unwind_ledger(ex, f)
+
     def on_ret(self, lr, ex, f, eng):
         e = self.expected()
         c = self.cur
@@ -1931,6 +2017,13 @@ def show(t, c):
 def analyse_tu(eng, cfg):
     laws = Laws(eng, cfg)
     spec = Spec(laws, cfg)
+    # the element stride (for single-element operations of the exceptional-exit ledger)
+    for f in irrules.gch_roots(eng):
+        if is_public(f) and base_name(f.pretty) == 'operator[]':
+            lay = spec.layout(class_of(f))
+            if lay is not None:
+                laws.stride = lay['stride']
+                break
     n = 0
     ops = set()
     skipped = []
@@ -1962,9 +2055,10 @@ def analyse_tu(eng, cfg):
         passed = set((r.rule, r.sample['operation']) for r in wrong.reports.values() if r.ok and r.rule in ctl)
         control = {'flagged': len(flagged), 'wrongly_passed': sorted(passed - flagged)[:10], 'passed_somewhere': len(passed)}
     marker = any('heap_temporary' in (fn.pretty or '') for fn in eng.mod.funcs.values())
-    return {'reports': list(spec.reports.values()), 'functions': n, 'decided': spec.decided, 'control': control,
+    return {'reports': list(spec.reports.values()) + list(laws.unwind_reports.values()), 'functions': n,
+            'decided': spec.decided, 'control': control,
             'flavour_marker': marker,
             'undecided_paths': spec.undecided, 'undecided_ops': spec.undecided_ops,
-            'placed': spec.placed, 'unplaced': spec.unplaced, 'ledgered': spec.ledgered, 'directions': spec.directions, 'unplaced_ops': spec.unplaced_ops,
+            'placed': spec.placed, 'unplaced': spec.unplaced, 'ledgered': spec.ledgered, 'directions': spec.directions, 'ledgered_unwind': laws.ledgered_unwind, 'unplaced_ops': spec.unplaced_ops,
             'operations': sorted(ops), 'laws': laws.stats, 'skipped_operations': skipped,
             'law_functions': sorted(base_name(eng.oracle.pretty.get(k, k)) for k, v in laws.memo.items() if v is not None)}
